@@ -223,12 +223,14 @@ Definition lx_model (case : bool * list nat * list (lx_call * list stage)) : V :
   end.
 
 (* the same on a channel configured for slow sending (slow_send_delay, slow_send_chunksize) *)
+Definition lx_chan_slow (ash : bool) (acc : list nat) (sl : Z * nat) : chan :=
+  let c0 := lx_chan ash acc in
+  mkChan (io c0) (prompt c0) (deaths c0) (lgs c0) (blacklist c0) (Some sl) (ctx c0) (nextid c0).
+
 Definition lx_model_slow (case : bool * list nat * (Z * nat) * list (lx_call * list stage)) : V :=
   match case with
   | (ash, acc, sl, ks) =>
-      let c0 := lx_chan ash acc in
-      let c1 := mkChan (io c0) (prompt c0) (deaths c0) (lgs c0) (blacklist c0) (Some sl) (ctx c0) (nextid c0) in
-      let (vs, c) := lx_run ks c1 [] in
+      let (vs, c) := lx_run ks (lx_chan_slow ash acc sl) [] in
       VL [VL vs; VB (wr (io c)); VB (unread c)]
   end.
 
